@@ -228,6 +228,7 @@ class Histories(Sub):
     min_nontrivial = 100
 
     def cases(self, tier, unit):
+        self._tier = tier
         depth = 2 if tier == 'quick' else 3
         for i in range(len(OPS)):
             if depth == 2:
@@ -243,11 +244,20 @@ class Histories(Sub):
         from .. import zygote
         bops = binding_ops(hist)
         refs = env.__dict__.setdefault('_c02refs', {})
-        for debug in (False, True):
-            got = zygote.call('hxverif.props.c02', 'pristine_history',
-                              {'hist': hist, 'probes': list(range(NPROBE)), 'debug': debug})
+        # A probe is itself an evaluation and may wipe what the history left behind, so the probes are also run
+        # in other orders: reversed, and rotated so that different probes come FIRST after the history
+        # (quick: 4 starting points chosen among the cell / blank-cell / function probes; thorough: every rotation)
+        nat = list(range(NPROBE))
+        if getattr(self, '_tier', 'quick') == 'thorough':
+            orders = [(False, nat[k:] + nat[:k]) for k in sorted(set(list(range(0, NPROBE, 3)) + [15, 20, 22]))]
+        else:
+            orders = [(False, nat[k:] + nat[:k]) for k in (0, 22, 15, 20)]
+        orders += [(True, nat), (False, nat[::-1])]
+        for debug, order in orders:
+            res = zygote.call('hxverif.props.c02', 'pristine_history', {'hist': hist, 'probes': order, 'debug': debug})
+            got = dict(zip(order, res))
             env.evals += NPROBE + len(hist)
-            for pi in range(NPROBE):
+            for pi in order:
                 key = (jkey(bops), pi)
                 if key not in refs:
                     refs[key] = zygote.call('hxverif.props.c02', 'pristine_history',
